@@ -40,3 +40,116 @@ def harnesses(tier):
         bounds={"seq": "0..2^31-1 (all)", "inc": "1..2^31-1 (all)"},
         note="oracle: org.apache.kafka.common.record.DefaultRecordBatch.incrementSequence")]
     return hs
+
+
+# ------------------------------------------------------------------------------------------
+# S1: the real AIOKafkaProducer on the virtual loop against the simulated cluster
+
+from . import prodsim  # noqa: E402
+
+
+def produce_config(src, allow_acks0=False):
+    idem = src.flag("idempotent")
+    cfg = {"idempotent": idem}
+    if not idem:
+        cfg["acks"] = [1, -1, 0][src.choice("acks", 3 if allow_acks0 else 2)]
+    cfg["linger_ms"] = [0, 5][src.choice("linger", 2)]
+    cfg["max_batch_size"] = [16384, 90][src.choice("batch_size", 2)]  # 90: one record per batch
+    return cfg
+
+
+def check_c01(src, res, cfg):
+    c = res["cluster"]
+    src.note({"cfg": cfg, "faults": res["plan"].log,
+              "requests": [(a["req"]["api"], a["fault"] if not isinstance(a["fault"], tuple) else list(a["fault"])) for a in c.arrivals][:14]})
+    src.check("deadlock" not in res, "producer run did not finish in bounded virtual time: " + str(res.get("deadlock")))
+    if "sends" not in res:
+        return
+    sends = res["sends"]
+    accepted = [s for s in sends if s["fut"] is not None]
+    idem = cfg["idempotent"]
+    for p in (0, 1):
+        tp = ("t", p)
+        log = prodsim.log_records(c, tp)
+        acc = {(s["key"], s["value"]): s for s in accepted if s["p"] == p}
+        # (1) only accepted records are appended
+        for off, k, v, ts, b in log:
+            src.check((k, v) in acc, f"partition {p}: appended record was never accepted by send()", key=k)
+        # (2) per task, first occurrences keep the task's send order
+        first = {}
+        for off, k, v, ts, b in log:
+            first.setdefault((k, v), off)
+        for j in {s["task"] for s in accepted}:
+            seq = [first[(s["key"], s["value"])] for s in sorted((x for x in accepted if x["task"] == j and x["p"] == p), key=lambda x: x["i"])
+                   if (s["key"], s["value"]) in first]
+            ok = all(a < b for a, b in zip(seq, seq[1:]))
+            if src.twin and len(seq) > 1:
+                ok = not ok
+            src.check(ok, f"partition {p}: records of task {j} appended out of send order", offsets=seq, faults=res["plan"].log, cfg=cfg)
+        # (3)/(4) duplication
+        counts = {}
+        for off, k, v, ts, b in log:
+            counts[(k, v)] = counts.get((k, v), 0) + 1
+        if idem:
+            for kv, n in counts.items():
+                src.check(n == 1, f"partition {p}: record appended {n} times with idempotence enabled", key=kv[0], faults=res["plan"].log)
+            for s in accepted:
+                if s["p"] == p and s["fut"].done() and not s["fut"].cancelled() and s["fut"].exception() is None:
+                    src.check(counts.get((s["key"], s["value"]), 0) == 1,
+                              f"partition {p}: acknowledged record is not in the log exactly once", key=s["key"], faults=res["plan"].log)
+        else:
+            firstbatch = {}
+            for off, k, v, ts, b in log:
+                sig = tuple((r[1], r[2]) for r in b.records)
+                if (k, v) in firstbatch:
+                    src.check(firstbatch[(k, v)] == sig,
+                              f"partition {p}: duplicate is not a whole re-sent batch", key=k, faults=res["plan"].log)
+                else:
+                    firstbatch[(k, v)] = sig
+    # (5) never two batches of one partition in flight (only retriable faults are injected)
+    for tp, n in c.max_inflight_per_partition.items():
+        src.check(n <= 1, f"{n} produce requests for partition {tp} in flight at once", faults=res["plan"].log, cfg=cfg)
+    # (6) sequences presented to the brokers
+    src.check(not c.seq_errors, "a sequence gap / reused sequence was presented to a broker (OUT_OF_ORDER_SEQUENCE)",
+              detail=str(c.seq_errors[:2]), faults=res["plan"].log, cfg=cfg)
+    src.check(not c.problems, "broker-side protocol problem: " + "; ".join(c.problems[:2]), faults=res["plan"].log)
+
+
+def s1_composed(src, tasks_spec, max_requests, max_faults, start_seq=0):
+    cfg = produce_config(src)
+    if start_seq and cfg["idempotent"]:
+        cfg["start_seq"] = start_seq
+    res = prodsim.run_producer(src, cfg, tasks_spec, prodsim.RETRIABLE_MENU, max_requests, max_faults)
+    check_c01(src, res, cfg)
+
+
+def _s1(tier):
+    from aiokafka.producer.sender import Sender, SendProduceReqHandler
+    from aiokafka.producer.message_accumulator import MessageAccumulator
+    from aiokafka.producer.producer import AIOKafkaProducer
+    q = tier == "quick"
+    confs = [([[0, 1, 0], [0, 0]], 5, 1)] if q else [([[0, 1, 0], [0, 0], [1, 0]], 6, 2), ([[0, 0, 0], [0, 1]], 5, 3)]
+    hs = []
+    for spec, mr, mf in confs:
+        hs.append(Harness(
+            name=f"S1_composed_{len(spec)}tasks_{mr}req_{mf}faults", fn=s1_composed,
+            params={"tasks_spec": spec, "max_requests": mr, "max_faults": mf},
+            functions=[Sender._sender_routine, Sender._send_produce_req, SendProduceReqHandler.do,
+                       SendProduceReqHandler.handle_response, SendProduceReqHandler._can_retry,
+                       MessageAccumulator.drain_by_nodes, MessageAccumulator._pop_batch, MessageAccumulator.reenqueue,
+                       MessageAccumulator.add_message, AIOKafkaProducer.send],
+            shape="S",
+            symbolic_vars="choices: idempotence, acks, linger, batch size (1 record/batch or many), fault kind at each of the first produce/metadata requests",
+            bounds={"sender_tasks": len(spec), "records": sum(len(x) for x in spec), "partitions": 2, "brokers": 2,
+                    "faultable_requests": mr, "max_faults": mf, "fault_menu": [str(m) for m in prodsim.RETRIABLE_MENU]},
+            stubs=["AIOKafkaConnection -> SimConn (request-level cluster model, env/simkafka.py)", "virtual-time event loop", "random in aiokafka.client is deterministic"],
+            assumptions=["broker behaviour as modelled in env/simkafka.py (sequence rule: DESIGN Appendix B1)"],
+            max_seconds=300 if q else 1500, max_paths=3000000, twin_max_paths=2000))
+    return hs
+
+
+_k_harnesses = harnesses
+
+
+def harnesses(tier):  # noqa: F811
+    return _k_harnesses(tier) + _s1(tier)
